@@ -23,3 +23,9 @@ for q, f in r.funcs.items():
 out2 = os.path.join(os.path.dirname(out), "known_locals.json")
 json.dump(loc, open(out2, "w"), indent=0, sort_keys=True)
 print(sum(len(v) for v in loc.values()), "locals")
+
+from sa import renames
+snap = renames.snapshot({m.name: ast.parse(m.text) for m in r.modules.values()})
+out3 = os.path.join(os.path.dirname(out), "known_members.json")
+json.dump(snap, open(out3, "w"), indent=0, sort_keys=True)
+print(len(snap), "modules in known_members.json")
